@@ -39,7 +39,7 @@ from harness.lib import coqbuild, ostrace, powerloss, c16_driver
 from harness.lib.coqio import C
 
 LEVEL = "proof"
-THEOREMS = ["C16_disciplined_safe"]
+THEOREMS = ["C16_durable_prefix", "C16_acked_durable", "C16_each_publish", "C16_publish_data_same", "C16_disciplined_safe"]
 REQ = ["DS.Model.Durable"]
 PRE = "Open Scope N_scope.\n"
 
